@@ -195,6 +195,11 @@ pub fn finish(ctx: &Ctx, level: &str, out: Outcome) -> i32 {
     }
     for (k, n) in &info_other {
         println!("INFO: monitor of another property fired ({n}x): {k}");
+        if std::env::var("VERIF_INFO_DETAIL").is_ok() {
+            if let Some(v) = out.violations.iter().find(|v| &format!("{}:{}", v.property, v.signature) == k) {
+                println!("  detail: {}\n  replay: {}", v.detail, v.replay);
+            }
+        }
     }
     for l in &out.info {
         println!("INFO: {l}");
@@ -330,4 +335,107 @@ pub fn finish(ctx: &Ctx, level: &str, out: Outcome) -> i32 {
     } else {
         1
     }
+}
+
+// ---------------------------------------------------------------------------------------------
+// Wall-clock watchdog: the last line of defence against an execution that never returns (an
+// endless loop inside one poll cannot be seen by any in-band counter). Every engine registers the
+// execution it is about to run; a watchdog thread turns one that has been running for
+// RUN_WALL_LIMIT_S into a verdict with a replay file - executions are deterministic, so the same
+// replay hangs every time - instead of letting the check hang.
+// ---------------------------------------------------------------------------------------------
+
+pub const RUN_WALL_LIMIT_S: u64 = 120;
+
+/// The replay description is built lazily, by the watchdog, from a closure that lives on the stack
+/// of the (hung) executing thread: registration must cost nothing, it happens once per execution.
+struct Running {
+    since: Instant,
+    describe: *const (dyn Fn() -> serde_json::Value + Sync),
+}
+unsafe impl Send for Running {}
+
+type Slot = std::sync::Arc<parking_lot::Mutex<Option<Running>>>;
+static SLOTS: parking_lot::Mutex<Vec<Slot>> = parking_lot::Mutex::new(Vec::new());
+static STARTED: std::sync::atomic::AtomicU64 = std::sync::atomic::AtomicU64::new(0);
+thread_local! {
+    static MY_SLOT: Slot = {
+        let s: Slot = Default::default();
+        SLOTS.lock().push(s.clone());
+        s
+    };
+    static MY_STARTED: std::cell::Cell<u64> = const { std::cell::Cell::new(0) };
+}
+
+pub struct RunGuard<'a> {
+    _life: std::marker::PhantomData<&'a ()>,
+}
+
+impl<'a> RunGuard<'a> {
+    /// `describe` must outlive the guard (declare it before the guard).
+    pub fn new(describe: &'a (dyn Fn() -> serde_json::Value + Sync + 'a)) -> RunGuard<'a> {
+        MY_STARTED.with(|c| {
+            c.set(c.get() + 1);
+            if c.get() % 1024 == 0 {
+                STARTED.fetch_add(1024, std::sync::atomic::Ordering::Relaxed);
+            }
+        });
+        // SAFETY: the pointer is only dereferenced by the watchdog while it holds the slot lock and
+        // the entry is present; Drop removes the entry under the same lock before `describe` dies.
+        let p: *const (dyn Fn() -> serde_json::Value + Sync + 'a) = describe;
+        let p: *const (dyn Fn() -> serde_json::Value + Sync + 'static) = unsafe { std::mem::transmute(p) };
+        MY_SLOT.with(|s| *s.lock() = Some(Running { since: Instant::now(), describe: p }));
+        RunGuard { _life: std::marker::PhantomData }
+    }
+}
+
+impl Drop for RunGuard<'_> {
+    fn drop(&mut self) {
+        MY_SLOT.with(|s| *s.lock() = None);
+    }
+}
+
+fn find_hung() -> Option<serde_json::Value> {
+    let slots: Vec<Slot> = SLOTS.lock().clone();
+    for s in slots {
+        let g = s.lock();
+        if let Some(r) = g.as_ref() {
+            if r.since.elapsed().as_secs() >= RUN_WALL_LIMIT_S {
+                // SAFETY: see RunGuard::new
+                return Some(unsafe { (*r.describe)() });
+            }
+        }
+    }
+    None
+}
+
+pub fn start_watchdog(ctx: &Ctx) {
+    let prop = ctx.prop.clone();
+    let tier = ctx.tier.name().to_string();
+    let seed = ctx.seed;
+    let dir = ctx.verif_dir.clone();
+    let start = ctx.start;
+    std::thread::spawn(move || loop {
+        std::thread::sleep(std::time::Duration::from_secs(2));
+        let Some(replay) = find_hung() else { continue };
+        let replay_dir = dir.join("replays");
+        let _ = std::fs::create_dir_all(&replay_dir);
+        let h = hash64(&replay.to_string());
+        let path = replay_dir.join(format!("{prop}-hang-{h:016x}.json"));
+        let detail = format!("one deterministic execution did not return within {RUN_WALL_LIMIT_S} s of wall clock (normal executions take milliseconds): the library loops without yielding");
+        let body = json!({"property": prop, "monitor": "hang", "signature": "hang/execution-never-returns", "detail": detail, "replay": replay});
+        let _ = std::fs::write(&path, serde_json::to_string_pretty(&body).unwrap());
+        let n = STARTED.load(std::sync::atomic::Ordering::Relaxed);
+        let ev = json!({
+            "property_id": prop, "tier": tier, "seed": seed, "level": "other",
+            "coverage": {"explanation": format!("run aborted by the wall-clock watchdog after {n} executions had been started: {detail}"), "evaluations": n, "samples": [replay]},
+            "wall_s": start.elapsed().as_secs_f64(), "violations": 1,
+        });
+        let _ = std::fs::create_dir_all(dir.join("evidence"));
+        let _ = std::fs::write(dir.join("evidence").join(format!("{prop}.json")), serde_json::to_string_pretty(&ev).unwrap());
+        println!("VIOLATION property={prop} replay={}", path.display());
+        println!("  monitor=hang signature=hang/execution-never-returns");
+        println!("  {detail}");
+        std::process::exit(1);
+    });
 }
